@@ -2467,8 +2467,8 @@ def oracle_options(case):
 
 CLAUSES = [
     Clause('displacement', oracle_displacement, G17.displacement_cases, quick=1200, thorough=22000,
-           min_share={'nt': 0.3, 'rewrapped': 0.4, 'direct': 0.25, 'box_differs': 0.08, 'searched': 0.05,
-                      'queried0': 0.35, 'queried1': 0.35, 'q_other_shells': 0.13, 'inplace_built': 0.22, 'ref_inplace_built': 0.12,
+           min_share={'nt': 0.3, 'rewrapped': 0.39, 'direct': 0.25, 'box_differs': 0.08, 'searched': 0.05,
+                      'queried0': 0.35, 'queried1': 0.35, 'q_other_shells': 0.13, 'inplace_built': 0.22, 'ref_inplace_built': 0.11,
                       'cur_inplace_built': 0.16, 'decoy': 0.15, 'repeat': 0.18, 'int_pos': 0.008,
                       'unit_1': 0.14, 'unit_small': 0.14, 'unit_si': 0.07, 'unit_large': 0.03,
                       # cross-pollinated classes (half of the smallest share seen at seeds 1-4, less for the small ones)
@@ -2489,16 +2489,16 @@ CLAUSES = [
                       # cross-pollinated classes (cases in the class of the open finding KEY_PV_VIEW carry no labels)
                       'ledger': 0.48, 'ledger_same_shape': 0.48, 'twin': 0.12, 'pv_reused': 0.05, 'stored_narrow': 0.03,
                       'cutoff_f32': 0.08, 'theta_npscalar': 0.055, 'ref_scalar': 0.085, 'at_dtype_limit': 0.015,
-                      'near_identity': 0.08, 'tiny_E': 0.065, 'tiny_R': 0.065, 'near_face': 0.12,
+                      'near_identity': 0.08, 'tiny_E': 0.065, 'tiny_R': 0.064, 'near_face': 0.12,
                       'sperm': 0.13, 'vperm': 0.25, 'lefthanded': 0.14, 'F_struct': 0.085},
            desc='homogeneous F: Strain.G = F^-T at every atom with a 3-D neighbour set, strain/rotation/invariants/angular velocity, '
                 'zero Nye tensor, asdict, save_to_system, nye_tensor() function, (F-I).d0 differential displacements; for fresh '
                 'objects and for Strain / DifferentialDisplacement objects in their second state (solved, read, changed, solved again)'),
     Clause('slip', oracle_slip, G17.slip_cases, quick=880, thorough=15000,
-           min_share={'nt': 0.15, 'slip_generic': 0.2, 'nye_class_vs_function': 0.12, 'nye_nonuniform': 0.12, 'cut_periodic': 0.1,
+           min_share={'nt': 0.15, 'slip_generic': 0.2, 'nye_class_vs_function': 0.1, 'nye_nonuniform': 0.12, 'cut_periodic': 0.1,
                       'inplane_open': 0.1, 'ddref1': 0.15, 'both_halves_move': 0.2,
                       'queried0': 0.33, 'queried1': 0.33, 'q_other_shells': 0.22, 'q_r0': 0.07, 'inplace_built': 0.22,
-                      'ref_inplace_built': 0.12, 'cur_inplace_built': 0.15, 'decoy': 0.15, 'repeat': 0.18, 'dd_resolved': 0.18,
+                      'ref_inplace_built': 0.11, 'cur_inplace_built': 0.15, 'decoy': 0.15, 'repeat': 0.18, 'dd_resolved': 0.18,
                       'sv_attr': 0.07, 'int_pos': 0.008,
                       # (no guard on 'unit_si' here and below: on the unchanged code those cases end in the open finding
                       # KEY_DISREG_UNIT - after slip vector, differential displacements and Nye tensor were judged - and
@@ -2514,7 +2514,7 @@ CLAUSES = [
                 'ddvectors = u_j - u_i per listed pair (both references), Nye tensor of class / function / own curl agree; on System '
                 'objects with earlier neighbour-list queries / stale neighbors attributes / in-place construction, repeated calls'),
     Clause('invariance', oracle_invariance, G17.invariance_cases, quick=580, thorough=8500,
-           min_share={'nt': 0.25, 'cfg_slip': 0.2, 'cfg_F': 0.2, 'nye_compared': 0.5, 'rewrapped': 0.2,
+           min_share={'nt': 0.25, 'cfg_slip': 0.2, 'cfg_F': 0.2, 'nye_compared': 0.49, 'rewrapped': 0.2,
                       'queried0': 0.3, 'queried1': 0.29, 'q_other_shells': 0.23, 'decoy': 0.16,
                       'unit_1': 0.14, 'unit_small': 0.14, 'unit_large': 0.03,
                       # cross-pollinated classes
